@@ -492,6 +492,15 @@ def main(tier, seed, replay):
                     V.violation('formatting-variant-changes-an-answer:%s' % cls, {'file': fid, 'cmd': c.cmds[a], 'a': ra, 'b': rb})
                     break
             V.nontrivial(fid)
+    if not quick or os.environ.get('C12_EXTRAS'):
+        from . import fuzz_C12
+        secs = int(os.environ.get('C12_FUZZ_SECONDS', '1500'))
+        fuzz_C12.fuzz(V, seed, schema, secs, max(2, core.NCPU - 2), battery)
+        # memcheck replay: documents that reached semantic code (constructed or semantically rejected), mutated and corpus files
+        sel = [core.workfile(PID, it[3]) for it in plan if it[0] == 'gen' and not it[1].crash and it[1].results and it[1].results[0][0] in ('ok', 'ex')]
+        rng.shuffle(sel)
+        mem_files = sel[:int(os.environ.get('C12_MEMCHECK_FILES', '300'))] + [d['path'] for d in descs[:60]]
+        fuzz_C12.memcheck(V, mem_files)
     V.coverage['generated_documents'] = outcomes
     V.coverage['most_common_rejections'] = sorted(reject_msgs.items(), key=lambda kv: -kv[1])[:12]
     V.sample({'generated_document': plan[0][2]}, limit=1)
